@@ -129,6 +129,17 @@ func TestVerifSketch(t *testing.T) {
 					before = append(before, s.Table...)
 				}
 				var rs bool
+				lanes := func() (sum uint64) {
+					defer func() { _ = recover() }()
+					block := (h & uint64(s.BlockMask)) << 3
+					ch := rehash(h)
+					for i := uint8(0); i < 4; i++ {
+						idx, off := s.indexOf(ch, block, i)
+						sum += (s.Table[idx] >> (off << 2)) & 0xf
+					}
+					return
+				}
+				lanesBefore, additionsBefore := lanes(), s.Additions
 				func() {
 					defer func() {
 						if e := recover(); e != nil {
@@ -138,6 +149,15 @@ func TestVerifSketch(t *testing.T) {
 					rs = s.Add(h)
 				}()
 				tr.op("add", ss("0", u(h)), ss(b2s(rs)))
+				if !rs {
+					want := additionsBefore
+					if lanes() != lanesBefore {
+						want++
+					}
+					if s.Additions != want {
+						viol("C17: Add(%d) changed its counters from sum %d to %d but the aging clock went %d -> %d (want %d): resets no longer follow the recordings", h, lanesBefore, lanes(), additionsBefore, s.Additions, want)
+					}
+				}
 				sinceReset++
 				if rs {
 					tr.hist["reset_via_add"]++
